@@ -278,6 +278,8 @@ def w_obs(o):
         return "panic"
     if o.get("loaderr"):
         return "loaderr"
+    if o.get("nerr") is not None:
+        return "(obs %s %s %s %d)" % (w_xval_obs(o.get("value")), "t" if o.get("errors") else "f", w_log(o.get("log")), o["nerr"])
     return "(obs %s %s %s)" % (w_xval_obs(o.get("value")), "t" if o.get("errors") else "f", w_log(o.get("log")))
 
 
